@@ -565,6 +565,19 @@ impl<C: Suite> Interp<C> {
                 self.put(&st["out"], Obj::Comm(n))?;
                 Ok(json!({"ok": true}))
             }
+            "neg_nonces" => {
+                // nonce scalars negated, stored commitments kept (through the self-describing form)
+                let non = self.non(&st["src"])?;
+                let zero = F::<C>::zero();
+                let h = zero - non.hiding().to_scalar();
+                let b = zero - non.binding().to_scalar();
+                let mut v = serde_json::to_value(&non).map_err(|_| ScriptError("nonces to json".into()))?;
+                v["hiding"] = json!(hex(F::<C>::serialize(&h).as_ref()));
+                v["binding"] = json!(hex(F::<C>::serialize(&b).as_ref()));
+                let n: SigningNonces<C> = serde_json::from_value(v).map_err(|_| ScriptError("nonces from json".into()))?;
+                self.put(&st["out"], Obj::Non(n))?;
+                Ok(json!({"ok": true}))
+            }
             "package" => {
                 let msg = bytes_of(&st["msg"])?;
                 let m = self.slots(st.get("slots"), |s, h| s.comm(h))?;
